@@ -43,10 +43,14 @@ type FnContract struct {
 	Loops    map[int]*LoopC
 	Cases    []string // case split expressions (each an assumption; obligations named @case)
 	Pure     []string
+	Harness  string            // engine-built input state (e.g. flat-RAM CPU)
+	HArgs    map[string]string // role -> parameter name
+	Ops      string            // "all" or comma list of opcodes for harnesses that enumerate op
+	NoSafety bool              // implicit runtime-panic obligations are assumed (proved under another property)
 }
 
 var clauseKW = map[string]bool{"requires": true, "ensures": true, "panics": true, "onpanic": true, "assigns": true,
-	"modular": true, "trusted": true, "loop": true, "property": true, "case": true, "pure": true}
+	"modular": true, "trusted": true, "loop": true, "property": true, "case": true, "pure": true, "harness": true, "nosafety": true}
 
 func (w *World) loadContracts() {
 	var paths []string
@@ -147,8 +151,21 @@ func (w *World) parseContractFile(pkgPath, file string) {
 		case "pure":
 			cur.Pure = append(cur.Pure, strings.Fields(rest)...)
 			lastClause = nil
+		case "harness":
+			fs := strings.Fields(rest)
+			cur.Harness = fs[0]
+			cur.HArgs = map[string]string{}
+			for _, kv := range fs[1:] {
+				if i := strings.IndexByte(kv, '='); i > 0 {
+					cur.HArgs[kv[:i]] = kv[i+1:]
+				}
+			}
+			lastClause = nil
 		case "modular":
 			cur.Modular = true
+			lastClause = nil
+		case "nosafety":
+			cur.NoSafety = true
 			lastClause = nil
 		case "trusted":
 			cur.Trusted = true
